@@ -973,16 +973,15 @@ impl Transaction {
             return false;
         }
 
-        if self
-            .from
-            .iter()
-            .map(|slip| slip.utxoset_key)
-            .collect::<Vec<_>>()
-            .len()
-            != self.from.len()
         {
-            error!("ERROR: transaction : {} has duplicate inputs", self);
-            return false;
+            // the same value-carrying output must not be referenced twice
+            let mut unique_inputs: AHashSet<SaitoUTXOSetKey> = Default::default();
+            for slip in self.from.iter().filter(|slip| slip.amount > 0) {
+                if !unique_inputs.insert(slip.get_utxoset_key()) {
+                    error!("ERROR: transaction : {} has duplicate inputs", self);
+                    return false;
+                }
+            }
         }
 
         // Fee Transactions are validated in the block class. There can only
@@ -1003,6 +1002,10 @@ impl Transaction {
         if self.transaction_type == TransactionType::SPV {
             if self.total_fees > 0 {
                 error!("ERROR: SPV transaction contains invalid hash");
+                return false;
+            }
+            if !self.from.is_empty() || !self.to.is_empty() {
+                error!("ERROR: SPV transaction is not permitted to spend or create outputs");
                 return false;
             }
 
@@ -1063,7 +1066,8 @@ impl Transaction {
                 return false;
             }
 
-            return true;
+            // staking transactions are signed by their sender like any other
+            // user-originated transaction, so the checks below apply to them too
         }
 
         //
@@ -1142,9 +1146,37 @@ impl Transaction {
             }
 
             //
-            // validate tokens are not created out of thin air
+            // every spent slip must belong to the key that signed the transaction
             //
-            if self.total_out > self.total_in && self.transaction_type != TransactionType::Fee {
+            let signer: SaitoPublicKey = self.from[0].public_key;
+            if self
+                .from
+                .iter()
+                .any(|slip| slip.amount > 0 && slip.public_key != signer)
+            {
+                error!("ERROR 582040: transaction spends a slip not owned by its signer");
+                return false;
+            }
+
+            //
+            // validate tokens are not created out of thin air. the sums are
+            // recalculated without wrapping around the range of Currency
+            //
+            let wide_total_in: u128 = self
+                .from
+                .iter()
+                .filter(|slip| slip.slip_type != SlipType::Bound)
+                .map(|slip| slip.amount as u128)
+                .sum();
+            let wide_total_out: u128 = self
+                .to
+                .iter()
+                .filter(|slip| slip.slip_type != SlipType::Bound)
+                .map(|slip| slip.amount as u128)
+                .sum();
+            if (wide_total_out > wide_total_in || self.total_out > self.total_in)
+                && self.transaction_type != TransactionType::Fee
+            {
                 error!("ERROR 802394: transaction spends more than it has available");
                 return false;
             }
